@@ -2,11 +2,13 @@
 `FittedAffine`: every returned pair carries the score recomputed from letters, matrix and gap
 parameters (after the repair of K5).  The loop-level invariant is the generic one of
 `Proofs/TraceFaith`; what is specific is the termination argument: the loop can only stop
-inside a block, because row 0 holds values only in the `left` layer and column 0 (the free
-reference prefix, `{−∞, 0, −∞}`) only in the `up` layer, while a gap run in progress excludes
-exactly that layer.  Core only.
+inside a block or in a gap run that has just been charged its `gapOpen`, because row 0 holds
+values only in the `left` layer and column 0 (the free reference prefix, `{−∞, 0, −∞}`) only in
+the `up` layer, while a gap run that has not been opened yet is still in its own layer.
+Stated for either fill (`cross`) and either end selection (`ends`).  Core only.
 -/
 import Biogo.Proofs.FittedAffine
+import Biogo.Proofs.FittedFull
 import Biogo.Proofs.NWFaith
 
 namespace Biogo.Proofs.FitFaith
@@ -15,54 +17,87 @@ open Biogo.Proofs.AffineOpt Biogo.Proofs.AlignAffTable Biogo.Proofs.TraceSum Bio
 open Biogo.Proofs.TraceWF Biogo.Proofs.TraceFaith Biogo.Proofs.FittedAffine Biogo.Proofs.NWFaith
 
 /-- the first row of the fitted table is the first row of the global table -/
-theorem fitTable_row0 (S : Matrix) (o : Int) (r q : List Nat) (j : Nat) (hj : j ≤ q.length) :
-    (fitTable S o r q).at 0 j = (nwTable S o r q).at 0 j := by
-  rw [fitTable_at S o r q 0 j hj, fitAt_row0, nwTable_at S o r q 0 j hj]
+theorem fitTable_row0 (cross : Bool) (S : Matrix) (o : Int) (r q : List Nat) (j : Nat) (hj : j ≤ q.length) :
+    (fitTable cross S o r q).at 0 j = (nwTable cross S o r q).at 0 j := by
+  rw [fitTable_at cross S o r q 0 j hj, fitAt_row0 cross S o r q j cross, nwTable_at cross S o r q 0 j hj]
 
 /-- column 0 below the origin: the free reference prefix sits in the `up` layer -/
-theorem fitTable_col0 (S : Matrix) (o : Int) (r q : List Nat) (i : Nat) (hi : i < r.length) :
-    (fitTable S o r q).at (i + 1) 0 = ⟨none, some 0, none⟩ := by
-  rw [fitTable_at S o r q (i + 1) 0 (Nat.zero_le _)]
-  exact fitAt_col0 S o r q i hi
+theorem fitTable_col0 (cross : Bool) (S : Matrix) (o : Int) (r q : List Nat) (i : Nat) (hi : i < r.length) :
+    (fitTable cross S o r q).at (i + 1) 0 = ⟨none, some 0, none⟩ := by
+  rw [fitTable_at cross S o r q (i + 1) 0 (Nat.zero_le _)]
+  exact fitAt_col0 cross S o r q i hi
 
 /-- the layer-aware traceback of `FittedAffine` never raises the ghost flag -/
-theorem fitAlignT_aware_tie (S : Matrix) (o : Int) (r q : List Nat) (ps : List Pair) (t : Bool)
-    (h : fitAlignT true S o r q = .ok (ps, t)) : t = false := by
+theorem fitAlignT_aware_tie (cross ends : Bool) (S : Matrix) (o : Int) (r q : List Nat) (ps : List Pair) (t : Bool)
+    (h : fitAlignT true cross ends S o r q = .ok (ps, t)) : t = false := by
   unfold fitAlignT at h
   simp only [] at h
   split at h
   · cases h
   · rename_i st hl
-    have ht := loop_tie_aware false _ S o r q _ _ _ _ st hl
+    have ht := loop_tie_aware cross false _ S o r q _ _ _ _ st hl
     simp only [] at ht
     split at h <;> (cases h; exact ht)
 
-/-- **Faithful pair scores, `FittedAffine`**: every pair the model returns carries the score
-    recomputed from the letters, the matrix and the gap parameters, the leading query gap
-    (fix K2b) included. -/
-theorem fitAlign_faithful (S : Matrix) (o : Int) (r q : List Nat) (hr : r ≠ []) (hq : q ≠ [])
-    (ps : List Pair) (h : fitAlign S o r q = .ok ps) : faithful S o r q ps = true := by
+/-- the start of the traceback (either end selection): a row `1 ≤ e ≤ |r|` and a layer of the
+    last column of that row that holds a value -/
+theorem fitStart_spec (cross ends : Bool) (S : Matrix) (o : Int) (r q : List Nat) (hr : r ≠ []) (hq : q ≠ []) :
+    let start : Nat × Kind := if ends then fitEnd3 (fitTable cross S o r q) q.length r.length 1 (0, .m, none)
+      else (fitEnd (fitTable cross S o r q) q.length r.length 1 (0, none), Kind.m)
+    1 ≤ start.1 ∧ start.1 ≤ r.length ∧ ∃ x, ((fitTable cross S o r q).at start.1 q.length).get start.2 = some x := by
   have hR : 1 ≤ r.length := by cases r with | nil => exact absurd rfl hr | cons _ _ => simp
   have hC : 1 ≤ q.length := by cases q with | nil => exact absurd rfl hq | cons _ _ => simp
-  have F := nwTable_facts S o r q
-  have hE : fitEnd (fitTable S o r q) q.length r.length 1 (0, none) ≤ r.length :=
-    fitEnd_le _ _ _ _ _ _ (Nat.zero_le _) (by omega)
-  have hE1 : 1 ≤ fitEnd (fitTable S o r q) q.length r.length 1 (0, none) :=
-    fitEnd_pos _ _ _ _ _ (Nat.le_refl _) (Or.inr ⟨rfl, hR⟩)
-  unfold fitAlign fitAlignT at h
-  simp only [] at h
-  generalize he : fitEnd (fitTable S o r q) q.length r.length 1 (0, none) = e at hE hE1 h
-  obtain ⟨e', rfl⟩ : ∃ e', e = e' + 1 := ⟨e - 1, by omega⟩
   obtain ⟨C', hC'⟩ : ∃ C', q.length = C' + 1 := ⟨q.length - 1, by omega⟩
-  obtain ⟨x, hx⟩ := fit_d_some S o r q e' C' (by omega) (by omega)
-  have hinit : Good (fitTable S o r q) r.length q.length x
-      { i := e' + 1, j := q.length, layer := .m, last := .m, score := 0, maxI := e' + 1,
-        maxJ := q.length, aln := [] } := by
-    refine ⟨hE, Nat.le_refl _, x, ?_, by simp [total]⟩
-    simp only []
-    rw [fitTable_at S o r q _ _ (Nat.le_refl _), hC']; exact hx
+  cases ends with
+  | false =>
+    simp only [Bool.false_eq_true, if_false]
+    have hE : fitEnd (fitTable cross S o r q) q.length r.length 1 (0, none) ≤ r.length :=
+      fitEnd_le _ _ _ _ _ _ (Nat.zero_le _) (by omega)
+    have hE1 : 1 ≤ fitEnd (fitTable cross S o r q) q.length r.length 1 (0, none) :=
+      fitEnd_pos _ _ _ _ _ (Nat.le_refl _) (Or.inr ⟨rfl, hR⟩)
+    refine ⟨hE1, hE, ?_⟩
+    generalize fitEnd (fitTable cross S o r q) q.length r.length 1 (0, none) = e at hE hE1
+    obtain ⟨e', rfl⟩ : ∃ e', e = e' + 1 := ⟨e - 1, by omega⟩
+    obtain ⟨x, hx⟩ := fit_d_some cross S o r q e' C' (by omega) (by omega)
+    exact ⟨x, by rw [fitTable_at cross S o r q _ _ (Nat.le_refl _), hC']; exact hx⟩
+  | true =>
+    simp only [if_true]
+    have hE : (fitEnd3 (fitTable cross S o r q) q.length r.length 1 (0, .m, none)).1 ≤ r.length :=
+      fitEnd3_le _ _ _ _ _ _ (Nat.zero_le _) (by omega)
+    have hE1 : 1 ≤ (fitEnd3 (fitTable cross S o r q) q.length r.length 1 (0, .m, none)).1 :=
+      Biogo.Proofs.FittedFull.fitEnd3_pos _ _ _ _ _ (Nat.le_refl _) (Or.inr ⟨rfl, hR⟩)
+    have hLay := Biogo.Proofs.FittedFull.fitEnd3_layer (fitTable cross S o r q) q.length r.length 1 (0, .m, none)
+      (fun h => absurd h (by simp)) (Nat.le_refl _) hE1
+    refine ⟨hE1, hE, ?_⟩
+    generalize fitEnd3 (fitTable cross S o r q) q.length r.length 1 (0, .m, none) = start at hE hE1 hLay
+    obtain ⟨e, lay⟩ := start
+    simp only [] at hE hE1 hLay ⊢
+    obtain ⟨e', rfl⟩ : ∃ e', e = e' + 1 := ⟨e - 1, by omega⟩
+    obtain ⟨xd, hxd⟩ := fit_d_some cross S o r q e' C' (by omega) (by omega)
+    rw [hLay, cellBest_layer, fitTable_at cross S o r q _ _ (Nat.le_refl _), hC']
+    exact max3_some (k := .m) hxd
+
+/-- **Faithful pair scores, `FittedAffine`** (either fill, either end selection): every pair the
+    model returns carries the score recomputed from the letters, the matrix and the gap
+    parameters, the leading query gap (fix K2b) included. -/
+theorem fitAlignT_faithful (cross ends : Bool) (S : Matrix) (o : Int) (r q : List Nat) (hr : r ≠ []) (hq : q ≠ [])
+    (ps : List Pair) (h : (fitAlignT true cross ends S o r q).map (·.1) = .ok ps) : faithful S o r q ps = true := by
+  have hR : 1 ≤ r.length := by cases r with | nil => exact absurd rfl hr | cons _ _ => simp
+  have hC : 1 ≤ q.length := by cases q with | nil => exact absurd rfl hq | cons _ _ => simp
+  have F := nwTable_facts cross S o r q
+  obtain ⟨hE1, hE, x, hx⟩ := fitStart_spec cross ends S o r q hr hq
+  unfold fitAlignT at h
+  simp only [] at h hE1 hE hx
+  generalize (if ends then fitEnd3 (fitTable cross S o r q) q.length r.length 1 (0, .m, none)
+    else (fitEnd (fitTable cross S o r q) q.length r.length 1 (0, none), Kind.m)) = start at h hE hE1 hx
+  obtain ⟨e, lay⟩ := start
+  simp only [] at h hE hE1 hx
+  have hinit : Good (fitTable cross S o r q) r.length q.length x
+      { i := e, j := q.length, layer := lay, last := lay, score := 0, maxI := e,
+        maxJ := q.length, aln := [] } :=
+    ⟨hE, Nat.le_refl _, x, hx, by simp [total]⟩
   obtain ⟨st, hloop, ⟨_, hjC, v, hv, _⟩, hend⟩ :=
-    loop_good_gen true false r.length q.length (exists_cand_fit S o r q) x (e' + 1 + q.length) _ hinit
+    loop_good_gen true cross false r.length q.length (exists_cand_fit cross S o r q) x (e + q.length) _ hinit
       (Nat.le_refl _)
   have hstop : st.i = 0 ∨ st.j = 0 := by
     rcases hend with e | e | e
@@ -71,33 +106,44 @@ theorem fitAlign_faithful (S : Matrix) (o : Int) (r q : List Nat) (hr : r ≠ []
     · exact absurd e.1 (by simp)
   rw [hloop] at h
   simp only [] at h
-  have hinv := loop_inv true false _ S o r q r.length q.length (e' + 1) q.length _ _ st
-    (init_inv r.length q.length (e' + 1) q.length .m hE (Nat.le_refl _)) hloop
-  have hf := loop_faith_aware false _ S o r q r.length q.length (e' + 1) q.length _ _ st
-    (init_inv r.length q.length (e' + 1) q.length .m hE (Nat.le_refl _)) rfl
-    (init_faith S o r q (e' + 1) q.length .m (by omega) (by omega)) hloop
+  have hinv := loop_inv true cross false _ S o r q r.length q.length e q.length _ _ st
+    (init_inv_layer r.length q.length e q.length lay hE (Nat.le_refl _)) hloop
+  have hf := loop_faith_aware cross false _ S o r q r.length q.length e q.length _ _ st
+    (init_inv_layer r.length q.length e q.length lay hE (Nat.le_refl _)) rfl
+    (init_faith_layer S o r q e q.length lay (by omega) (by omega)) hloop
   obtain ⟨hi, hj, hmR, hmC, isegm, isegu, isegl, iempty0, _, _, _, _⟩ := hinv
-  -- the loop can only stop in a block
-  have hlast : st.last = .m := by
+  -- the loop stops in a block, or in a gap run that has just been opened on the border: row 0
+  -- holds values only in the `left` layer, the free-prefix column 0 only in the `up` layer
+  have hpair : pairOK S o r q ⟨st.i, st.maxI, st.j, st.maxJ, st.score⟩ = true := by
     cases hk : st.last with
-    | m => rfl
+    | m => rw [hf.segm hk]; exact pairOK_block S o r q _ _ _ _ hi (isegm hk)
     | u =>
-      exfalso
       have hj0 : st.j ≠ 0 := fun e => hf.termj e hk
       have hi0 : st.i = 0 := by rcases hstop with e | e; exact e; exact absurd e hj0
       obtain ⟨j', hj'⟩ : ∃ j', st.j = j' + 1 := ⟨st.j - 1, by omega⟩
-      rw [hi0, hj', fitTable_row0 S o r q (j' + 1) (by omega)] at hv
-      exact (hf.segu hk).2.2 (F.row0 j' (by omega) _ v hv)
+      rw [hi0, hj', fitTable_row0 cross S o r q (j' + 1) (by omega)] at hv
+      have hlay : st.layer = .l := F.row0 j' (by omega) _ v hv
+      obtain ⟨e1, e2⟩ := isegu hk
+      have e2' : st.i < st.maxI := by
+        rcases e2 with e2 | e2
+        · exact e2
+        · rw [hlay] at e2; cases e2
+      rw [(hf.segu hk).2 (by rw [hlay]; decide), ← e1]
+      exact pairOK_up S o r q _ _ _ e2'
     | l =>
-      exfalso
       have hi0 : st.i ≠ 0 := fun e => hf.termi e hk
       have hj0 : st.j = 0 := by rcases hstop with e | e; exact absurd e hi0; exact e
       obtain ⟨i', hi'⟩ : ∃ i', st.i = i' + 1 := ⟨st.i - 1, by omega⟩
-      rw [hj0, hi', fitTable_col0 S o r q i' (by omega)] at hv
-      apply (hf.segl hk).2.2
-      cases hlay : st.layer <;> rw [hlay] at hv <;> simp [Cell.get] at hv
-  have hpair : pairOK S o r q ⟨st.i, st.maxI, st.j, st.maxJ, st.score⟩ = true := by
-    rw [hf.segm hlast]; exact pairOK_block S o r q _ _ _ _ hi (isegm hlast)
+      rw [hj0, hi', fitTable_col0 cross S o r q i' (by omega)] at hv
+      have hlay : st.layer = .u := by
+        cases hlay : st.layer <;> rw [hlay] at hv <;> simp [Cell.get] at hv
+      obtain ⟨e1, e2⟩ := isegl hk
+      have e2' : st.j < st.maxJ := by
+        rcases e2 with e2 | e2
+        · exact e2
+        · rw [hlay] at e2; cases e2
+      rw [(hf.segl hk).2 (by rw [hlay]; decide), ← e1]
+      exact pairOK_left S o r q _ _ _ e2'
   have hemit : st.emit.aln.all (pairOK S o r q) = true := by
     simp only [TB.emit, List.all_cons, hpair, hf.done, Bool.and_self]
   by_cases hj0 : st.j ≠ 0
@@ -108,12 +154,17 @@ theorem fitAlign_faithful (S : Matrix) (o : Int) (r q : List Nat) (hr : r ≠ []
     simp only [List.all_cons, hemit, Bool.and_true]
     have hi0 : st.i = 0 := by rcases hstop with e | e; exact e; exact absurd e hj0
     obtain ⟨j', hj'⟩ : ∃ j', st.j = j' + 1 := ⟨st.j - 1, by omega⟩
-    rw [hi0, hj', fitTable_row0 S o r q (j' + 1) (by omega), (nw_row0_l S o r q j' (by omega)).1]
+    rw [hi0, hj', fitTable_row0 cross S o r q (j' + 1) (by omega), (nw_row0_l cross S o r q j' (by omega)).1]
     have := pairOK_left S o r q 0 0 (j' + 1) (by omega)
     simpa [vget] using this
   · rw [if_neg hj0] at h
     simp only [Except.map] at h
     cases h
     exact hemit
+
+/-- **Faithful pair scores, `FittedAffine`**, the model of the code -/
+theorem fitAlign_faithful (S : Matrix) (o : Int) (r q : List Nat) (hr : r ≠ []) (hq : q ≠ [])
+    (ps : List Pair) (h : fitAlign S o r q = .ok ps) : faithful S o r q ps = true :=
+  fitAlignT_faithful true true S o r q hr hq ps h
 
 end Biogo.Proofs.FitFaith
